@@ -35,6 +35,36 @@ def truth(v):
     return None
 
 
+def _constant_expr(node):
+    """literals combined by arithmetic with names / dotted names (other constants), tuples of those; no calls"""
+    if isinstance(node, ast.Constant):
+        return isinstance(node.value, (int, float, complex))
+    if isinstance(node, ast.BinOp):
+        return _constant_expr(node.left) and _constant_expr(node.right)
+    if isinstance(node, ast.UnaryOp):
+        return _constant_expr(node.operand)
+    if isinstance(node, (ast.Name, ast.Attribute)):
+        return dotted(node) is not None
+    return False
+
+
+class _ModuleScope:
+    """stand-in for `cur` while a module-level expression is evaluated"""
+    def __init__(self, module, like):
+        self.module = module
+        self.key = f'{module.name}.<module>'
+        self.name = '<module>'
+        self.qualname = '<module>'
+        self.cls = None
+        self.node = getattr(like, 'node', None)
+
+    def params(self):
+        return []
+
+    def loc(self, node=None):
+        return self.module.relpath
+
+
 class ExprMixin:
     # ------------------------------------------------------------------ names
     def eval(self, node, st):
@@ -103,6 +133,16 @@ class ExprMixin:
                 if self.symbolic_globals:
                     return nf.sym(f'{m.name}.{nm}')
                 return self.e_Constant(val, None)
+            if _constant_expr(val):
+                # a module constant derived from literals and other constants (e.g. -2j*pi): its value
+                prev, self.cur = self.cur, _ModuleScope(m, self.cur)
+                try:
+                    from .state import State
+                    return self.eval(val, State())
+                except Exception:
+                    return nf.sym(f'{m.name}.{nm}')
+                finally:
+                    self.cur = prev
             return nf.sym(f'{m.name}.{nm}')
         if k == 'missing':
             return Const(('missing', tgt[1]))
